@@ -3125,7 +3125,7 @@ static hawk_nde_t* parse_print (hawk_t* hawk, const hawk_loc_t* xloc)
 				tail_prev = args_tail;
 				args_tail = args_tail->next;
 
-				if (gm_in_parens == 1 && hawk->ptok.type == TOK_RPAREN &&
+				if (gm_in_parens == 1 && hawk->ptok.type == TOK_RPAREN && (hawk->ptok.flags & TOK_FLAGS_LPAREN_CLOSER) &&
 				    hawk->parse.lparen_last_closed == group_opening_lparen_seq)
 				{
 					/* confirm that the last group seen so far
